@@ -98,9 +98,34 @@ def check_roles(spec):
     return None
 
 
+def check_empty_with_terms(spec):
+    """Empty replacement on C N C | O O with a bond between the two O: the two C-N occurrences share the N; all three atoms go, each once, and
+    the O-O bond must still join the two O atoms."""
+    from mofun import Atoms, replace_pattern_in_structure
+    with quiet():
+        S = Atoms(elements=list('CNCOO'), positions=np.array([[5., 5, 5], [6.2, 5, 5], [7.4, 5, 5], [12., 12, 12], [13.2, 12, 12]]), cell=geo.CELLS['cubic'] * 1.0,
+                  bonds=[(3, 4)], bond_types=[0])
+        sp = Atoms(elements=['C', 'N'], positions=[[0., 0, 0], [1.2, 0, 0]])
+        rp = Atoms()
+    random.seed(spec.get('rng', 0))
+    with quiet():
+        try:
+            res = replace_pattern_in_structure(S, sp, rp, replace_all=spec['replace_all'], ignore_atoms_should_not_be_deleted_twice=spec['ignore'])
+        except Exception as e:
+            return "empty replacement raised %r" % (e,)
+    if list(res.elements) != ['O', 'O']:
+        return "empty replacement leaves %r, expected the two O atoms" % (list(res.elements),)
+    b = [tuple(int(x) for x in t) for t in res.bonds]
+    if sorted(tuple(sorted(t)) for t in b) != [(0, 1)]:
+        return "after removing the shared atom once, the O-O bond should join atoms (0, 1); the result has bonds %r" % (b,)
+    return None
+
+
 def check(spec):
     if spec.get('structure') == 'roles':
         return check_roles(spec)
+    if spec.get('structure') == 'empty+terms':
+        return check_empty_with_terms(spec)
     from mofun import replace_pattern_in_structure
     from mofun.mofun import AtomsShouldNotBeDeletedTwice
     S = chain(spec['structure'])
@@ -111,13 +136,16 @@ def check(spec):
     res = None
     with quiet():
         try:
-            res = replace_pattern_in_structure(S, sp, rp, replace_all=spec['replace_all'],
+            res = replace_pattern_in_structure(S, sp, rp, replace_all=spec['replace_all'], replace_fraction=spec.get('f', 1.0),
                                                ignore_atoms_should_not_be_deleted_twice=spec['ignore'])
         except AtomsShouldNotBeDeletedTwice:
             raised = 'overlap'
         except Exception as e:
             raised = repr(e)
     overlap = expected_overlap(spec['structure'], spec['pattern'], spec['replace_all'])
+    if spec.get('f', 1.0) < 1.0:
+        # CNC has two occurrences: with f = 0.5 one of them is selected, with f = 0 none -- two SELECTED matches never overlap
+        overlap = False
     must_raise = overlap and not spec['ignore'] and spec['pattern'] != 'empty'
     if raised not in (None, 'overlap'):
         return "raised %s instead of handling the overlap" % raised
@@ -128,6 +156,8 @@ def check(spec):
     if res is not None and not overlap:
         # each structure atom removed at most once: atom count as computed from distinct removed atoms
         nmatch = {'CNC': 2, 'CNCNC': 4, 'separate': 2}[spec['structure']]
+        if spec.get('f', 1.0) < 1.0:
+            nmatch = round(spec['f'] * nmatch)
         shared = {} if spec['replace_all'] else {'keep-N': 1, 'keep-C': 1, 'keep-both': 2, 'none-shared': 0, 'empty': 0, 'moved-N': 0}[spec['pattern']]
         shared = 0 if spec['replace_all'] else shared
         removed_per = 2 - shared
@@ -163,6 +193,23 @@ def run(rec, tier, seed):
                     rec.case(repr(sorted(spec.items())), sample=spec if len(rec.samples) < 3 else None)
                     if msg:
                         rec.fail('overlap', 'overlap', "%s on %r" % (msg, spec), spec, 'C07/overlap')
+    # a replacement fraction below 1: only SELECTED matches count (CNC: two overlapping occurrences, one or none selected)
+    for pk in ('keep-C', 'none-shared', 'moved-N', 'keep-N'):
+        for f in (0.5, 0.0):
+            for ig in (False, True):
+                for rng in (0, 1):
+                    spec = dict(structure='CNC', pattern=pk, replace_all=False, ignore=ig, f=f, rng=rng)
+                    msg = check(spec)
+                    rec.case(repr(sorted(spec.items())))
+                    if msg:
+                        rec.fail('overlap', 'overlap', "%s on %r" % (msg, spec), spec, 'C07/overlap')
+    for ra in (False, True):
+        for ig in (False, True):
+            spec = dict(structure='empty+terms', pattern='empty', replace_all=ra, ignore=ig)
+            msg = check(spec)
+            rec.case(repr(sorted(spec.items())))
+            if msg:
+                rec.fail('overlap', 'overlap', "%s on %r" % (msg, spec), spec, 'C07/overlap')
     for pk in ('replace-last', 'replace-first', 'replace-both-ends', 'replace-middle'):
         for ra in (False, True):
             for ig in (False, True):
